@@ -413,6 +413,7 @@ type explorer struct {
 	solver       solverStats
 	maxViol      int
 	lossy        int64
+	seed         int
 	valSamples   []violation
 	validated    int
 	violKeys     map[string]int
@@ -624,7 +625,7 @@ func (i *interpreter) runPath(w workItem) {
 		}
 	}
 	if outcome == outOK && p.goroutines == 0 && p.replay == nil &&
-		(len(ex.valSamples) < 2 || (len(ex.valSamples) < 4 && len(p.decisions) > 10 && ex.paths%29 == 0)) {
+		(len(ex.valSamples) < 2 || (len(ex.valSamples) < 4 && len(p.decisions) > 10 && ex.paths%29 == int64(ex.seed%29))) {
 		ex.valSamples = append(ex.valSamples, i.snapshotInputs("pass", "sample", "", p.model))
 	}
 	if outcome == outOK && (len(ex.samples) < 3 || (len(ex.samples) < 6 && len(p.decisions) > 8 && ex.paths%17 == 0)) {
